@@ -143,6 +143,20 @@ func (c *Check) fixedC11() []*plan.Plan {
 			out = append(out, p)
 		}
 	}
+	for di, d := range gen.BigDocs() {
+		c.noteDoc(d)
+		for _, ord := range []string{"reversed", "random:d4"} {
+			p := c.newPlan("maporder", run, uint64(2000+di), "bubble")
+			run++
+			p.Docs = []plan.Doc{plan.NewDoc("d0", d.Bytes, d.Origin)}
+			p.Trees = []plan.Tree{{ID: "t0", Doc: "d0", Root: "document"}}
+			p.Options = []plan.Opt{optWithURL("o0", d.URL, 1, 0), optWithURL("o1", d.URL, 0, 0)}
+			p.Tasks = [][]plan.Op{{{Op: "Apply", Tree: "t0", Opt: "o0"}, {Op: "Reader", Doc: "d0", Opt: "o1"}}}
+			p.MapOrder = plan.MapOrder{Default: ord}
+			out = append(out, p)
+		}
+	}
+	out = append(out, c.probePlans(&run)...)
 	// (2) histories: the corpus in one process, twice, mixed entry points, a failing call in between
 	{
 		p := c.newPlan("history", run, 0, "bubble")
@@ -241,6 +255,24 @@ func (c *Check) fixedC11() []*plan.Plan {
 		ops = append(ops, plan.Op{Op: "File", Doc: "d0", Opt: "o0", FS: &plan.FSPlan{Kind: "closeerr"}})
 		p.Tasks = [][]plan.Op{ops}
 		out = append(out, p)
+	}
+	// (3b) order among goroutines the library starts itself (simulated tasks): link- and image-heavy pages
+	{
+		gdocs := append([]gen.GenDoc{gen.IndexPage(900)}, gen.BigDocs()...)
+		for di, d := range gdocs {
+			if di > 4 {
+				break
+			}
+			for k := 0; k < 4; k++ {
+				p := c.newPlan("goroutine-order", run, uint64(di), "bubble")
+				run++
+				p.Docs = []plan.Doc{plan.NewDoc("d0", d.Bytes, d.Origin)}
+				p.Options = []plan.Opt{optWithURL("o0", d.URL, 0, 0), optWithURL("o1", d.URL, 1, 0)}
+				p.Tasks = [][]plan.Op{{{Op: "Reader", Doc: "d0", Opt: "o0"}, {Op: "Reader", Doc: "d0", Opt: "o1"}}}
+				p.Schedule = gen.PickSchedule(gen.NewRand(uint64(0x60 + di*16 + k)))
+				out = append(out, p)
+			}
+		}
 	}
 	// (4) goroutine release order inside the charset detector
 	tie := []gen.GenDoc{gen.ChardetTie()}
@@ -397,6 +429,10 @@ func (c *Check) randC11(r *gen.Rand, run int, seed uint64) *plan.Plan {
 		p.Tasks = [][]plan.Op{{op}}
 		p.ChildOrder = gen.RandChildOrder(r)
 	}
+	if r.P(1, 2) {
+		// order among goroutines the library may start itself (simulated tasks); inert otherwise
+		p.Schedule = gen.PickSchedule(r)
+	}
 	return p
 }
 
@@ -501,6 +537,13 @@ func (c *Check) fixedC13() []*plan.Plan {
 		// stray bits
 		for _, flags := range gen.StrayFlags {
 			out = append(out, c.c13Variant(run, uint64(di), d, url, 1, false, flags, "file", nil, "Reader"))
+			run++
+		}
+	}
+	for di, d := range gen.BigDocs() {
+		c.noteDoc(d)
+		for k, flags := range []uint{2, 4, 8, 16, 30} {
+			out = append(out, c.c13Variant(run, uint64(1000+di), d, d.URL, uint(k%2), k == 3, flags, []string{"file", "full"}[k%2], nil, "Apply"))
 			run++
 		}
 	}
@@ -654,6 +697,8 @@ func (c *Check) fixedC01() []*plan.Plan {
 			out = append(out, p)
 		}
 	}
+	out = append(out, c.bigDocPlans(&run, "full", false)...)
+	out = append(out, c.probePlans(&run)...)
 	// soak: one long-lived process distilling many different pages with many distinct URLs, then a page
 	// with thousands of distinct links — whatever survives a call (caches, pools, tables with a capacity)
 	// is pushed past its limits
@@ -863,6 +908,68 @@ func (c *Check) fixedC10() []*plan.Plan {
 		q.Schedule = plan.Schedule{Gaps: [][2]int{{97, 1}, {211, 2}, {53, 0}, {401, 1}, {89, 2}, {157, 0}}, After: "cycle"}
 		out = append(out, q)
 	}
+	out = append(out, c.bigDocPlans(&run, "file", true)...)
+	out = append(out, c.probePlans(&run)...)
+	return out
+}
+
+// probePlans: one small plan per attribute-probe page.
+func (c *Check) probePlans(run *int) []*plan.Plan {
+	var out []*plan.Plan
+	docs := gen.AttrProbeDocs()
+	for di := 0; di < len(docs); di += 3 {
+		p := c.newPlan("attr-probes", *run, uint64(di), c.kernelName())
+		*run++
+		var ops []plan.Op
+		for k := di; k < di+3 && k < len(docs); k++ {
+			d := docs[k]
+			c.noteDoc(d)
+			id := fmt.Sprintf("d%d", k-di)
+			p.Docs = append(p.Docs, plan.NewDoc(id, d.Bytes, d.Origin))
+			p.Trees = append(p.Trees, plan.Tree{ID: "t" + id, Doc: id, Root: "document"})
+			flags := uint(0)
+			if c.prop == "C13" || c.prop == "C01" {
+				flags = 30
+			}
+			p.Options = append(p.Options, optWithURL("o"+id, d.URL, uint(k%2), flags))
+			ops = append(ops, plan.Op{Op: "Apply", Tree: "t" + id, Opt: "o" + id}, plan.Op{Op: "Apply", Tree: "t" + id, Opt: "o" + id}, plan.Op{Op: "Reader", Doc: id, Opt: "o" + id})
+		}
+		p.Tasks = [][]plan.Op{ops}
+		if c.prop == "C10" {
+			p.Monitor = true
+			p.Schedule = plan.Schedule{Gaps: [][2]int{{701, 0}, {1301, 0}}, After: "cycle"}
+		}
+		if c.prop == "C11" {
+			p.MapOrder = plan.MapOrder{Default: []string{"reversed", "rotate:1", "random:e5"}[(di/3)%3]}
+			p.Batch = "maporder"
+		}
+		out = append(out, p)
+	}
+	return out
+}
+
+// bigDocPlans: every "big" page (one quantity above every number the source mentions) through the
+// Apply family with shared arguments and both pagination algorithms.
+func (c *Check) bigDocPlans(run *int, sink string, monitor bool) []*plan.Plan {
+	var out []*plan.Plan
+	for di, d := range gen.BigDocs() {
+		c.noteDoc(d)
+		p := c.newPlan("big-pages", *run, uint64(di), c.kernelName())
+		*run++
+		p.Docs = []plan.Doc{plan.NewDoc("d0", d.Bytes, d.Origin)}
+		p.Trees = []plan.Tree{{ID: "t0", Doc: "d0", Root: "document"}}
+		p.Options = []plan.Opt{optWithURL("o0", d.URL, 0, 0), optWithURL("o1", d.URL, 1, 0), {ID: "o2", Flags: 30, URL: sp(d.URL)}}
+		p.Tasks = [][]plan.Op{{
+			{Op: "Apply", Tree: "t0", Opt: "o0"}, {Op: "Apply", Tree: "t0", Opt: "o1"}, {Op: "Reader", Doc: "d0", Opt: "o0"},
+			{Op: "File", Doc: "d0", Opt: "o1"}, {Op: "Apply", Tree: "t0", Opt: "o2"}, {Op: "Apply", Tree: "t0", Opt: "o0"},
+		}}
+		p.Sink = sink
+		p.Monitor = monitor
+		if monitor {
+			p.Schedule = plan.Schedule{Gaps: [][2]int{{4001, 0}, {9001, 0}, {20011, 0}}, After: "cycle"}
+		}
+		out = append(out, p)
+	}
 	return out
 }
 
@@ -1009,6 +1116,35 @@ func (c *Check) fixedC12() []*plan.Plan {
 		r := gen.NewRand(uint64(2000 + i))
 		out = append(out, c.racePlan("different-docs", run, uint64(i), docs, r, 4, 2, []int{30, 150, 400, 0}[i], false, false, i%3))
 		run++
+	}
+	if c.tier == "thorough" {
+		out = append(out, c.heavyRacePlans(&run)...)
+	}
+	return out
+}
+
+// heavyRacePlans (thorough tier): several multi-megabyte pages in flight at once — whatever the
+// library budgets, pools or limits per process is under pressure here.
+func (c *Check) heavyRacePlans(run *int) []*plan.Plan {
+	var out []*plan.Plan
+	for k := 0; k < 2; k++ {
+		p := c.newPlan("heavy-pages", *run, uint64(k), "race")
+		p.Plain = true
+		*run++
+		nt := 8
+		for t := 0; t < nt; t++ {
+			d := gen.BulkDoc(uint64(0xb01c+k*16+t), 1_300_000)
+			if t == 0 {
+				c.noteDoc(d)
+			}
+			id := fmt.Sprintf("d%d", t)
+			p.Docs = append(p.Docs, plan.NewDoc(id, d.Bytes, d.Origin))
+			p.Trees = append(p.Trees, plan.Tree{ID: "t" + id, Doc: id, Root: "document"})
+			p.Options = append(p.Options, optWithURL("o"+id, d.URL, uint(t%2), 0))
+			p.Tasks = append(p.Tasks, []plan.Op{{Op: "Apply", Tree: "t" + id, Opt: "o" + id}})
+		}
+		p.Schedule = gen.RandSchedule(gen.NewRand(uint64(77+k)), nt, 5000, 200)
+		out = append(out, p)
 	}
 	return out
 }
